@@ -93,7 +93,22 @@ def run(prog, rep):
         m = eg["m"]
         good = m[0] == "mu" and m[3] == ("lit", 0)
         why = f"the variable count passed to the graph is {sem.short(m, 100)}, not a maximum accumulated from 0"
-        if good:
+        # `trees.iter().map(count).max().unwrap_or(0)`: the same maximum as an iterator pipeline
+        nzm = norm.Normalizer()(m)
+        if not good and nzm[0] == "ite" and nzm[3] == ("lit", 0) and q.is_some_test(nzm[1]) is not None:
+            mx = q.is_some_test(nzm[1])
+            if mx[0] == "call" and last(mx[1]) == "max" and len(mx[2]) == 1 and nzm[2] == ("proj", mx, norm.SOME, 0):
+                src = mx[2][0]
+                body = None
+                if src[0] == "hof" and src[1] == "map":
+                    body = norm.Normalizer()(src[3])
+                elif src[0] == "collect":
+                    body = norm.Normalizer()(src[2])
+                count = C("len", C("collect_unique_hctl_vars", P(lambda t: pm.strip(t) == pm.strip(tree))))
+                good = body is not None and pm.match(count, body) is not None
+                why = f"the maximum is taken over {sem.short(body, 120)}: it must be the number of quantifier variables of every validated tree"
+                m = None
+        if good and m is not None:
             lv, step = ("loopvar", m[1], m[2]), m[4]
             count = C("len", C("collect_unique_hctl_vars", P(lambda t: pm.strip(t) == pm.strip(tree))))
             is_n = lambda t: pm.match(count, t) is not None      # noqa: E731
